@@ -14,7 +14,7 @@ CHECKS = {
    "Every interleaving of writes, reads, flushes, RTO expiries and per-segment deliver/drop/duplicate choices of a two-endpoint system built from the real Tcb is enumerated to a fixpoint within small budgets; in every state the stream-prefix invariant is checked and a fair continuation must deliver, acknowledge and fall silent. Large transfers (above MSS and above the 64 KiB window) are covered by bounded-deviation enumeration around the loss-free run.",
    "Budgets (writes, drops, duplicates, timer expiries) and MTU/ISN values are those listed in the evidence parts; the network model loses/duplicates/reorders but does not corrupt.", "6 C01"),
 
- "C02": (True, "E2", "model_checking",
+ "C02": (True, "E2 + E4 (loom)", "model_checking",
    "deviation-bounded exhaustive schedule search (task order, select branch, per-frame faults) over the real socket stack under a paused clock; exhaustive thread interleavings under loom (DPOR, preemption bound) for the socket layer's lock-protected hand-offs",
    "Socket/TcpStream/TcpListener scenarios (several write plans, read sizes, MTUs, late accept, replies, 1-3 clients, datagrams with a bystander) run on the real SocketAPI/Tcp/Udp/Ipv4/Arp/Pci/Network; every execution within d deviations from the FIFO, loss-free execution is run exactly once and judged: read lengths bounded, each stream a prefix of and finally equal to the peer's writes, datagrams intact and to the peer only.",
    "The schedule search works at poll granularity (which runnable task is polled next, an over-approximation of any multi-thread runtime at that granularity). Two polls running simultaneously on two workers are covered only where the loom part reaches: accept() against deliveries of the same connection, and concurrent ephemeral-port allocation, with the socket layer's RwLocks as scheduling points (DashMap and tokio channels are not instrumented). Deviation and preemption bounds per scenario are in the evidence.", "6 C02"),
